@@ -444,26 +444,33 @@ class SymTable(dict):
 
 
 # --------------------------------------------------------------------------- bytes + concretisation
-def concretize(si):
-    """fork over every feasible concrete value of a symbolic int (solver-driven)"""
-    lo = 0
-    while True:
-        # find smallest feasible value >= lo, fork on equality
-        EX.solver.push()
-        for p in EX.pc:
+def _feas(si, lo, hi):
+    EX.solver.push()
+    for p in EX.pc:
+        if not has_fp(p):
             EX.solver.add(p)
-        w = si.w + 1
-        EX.solver.add(si.ext(w) >= lo)
-        r = EX.solver.check()
-        if r != z3.sat:
-            EX.solver.pop()
+    w = si.w + 1
+    EX.solver.add(si.ext(w) >= lo, si.ext(w) <= hi)
+    r = EX.solver.check()
+    EX.solver.pop()
+    return r == z3.sat
+
+
+def concretize(si):
+    """fork over every feasible concrete value of a symbolic int, in ascending order (canonical, so
+    that replay is deterministic): binary search for the least feasible value under the path condition"""
+    while True:
+        lo, hi = -(1 << (si.w - 1)), (1 << (si.w - 1)) - 1
+        if not _feas(si, lo, hi):
             raise Unsupported("concretize exhausted")
-        v = EX.solver.model().eval(si.t, model_completion=True).as_signed_long()
-        EX.solver.pop()
-        if bool(si == v):
-            return v
-        # on the else-branch, continue searching other values
-        lo = lo  # pc now contains si != v
+        while lo < hi:
+            mid = (lo + hi) // 2
+            if _feas(si, lo, mid):
+                hi = mid
+            else:
+                lo = mid + 1
+        if bool(si == lo):
+            return lo
 
 
 SymInt.__hash__ = lambda self: hash(concretize(self))
